@@ -95,3 +95,64 @@ def strip_wrappers(e, names=("asarray", "array", "copy", "ascontiguousarray", "f
         else:
             break
     return e
+
+
+def hemisphere_predicates(repo, modname="molgri.space.utils"):
+    """functions of the utilities module that implement the canonical-hemisphere test ("first non-zero component is positive"):
+    {function name: +1 (upper) | -1 (lower)} — recognised by structure, not by name"""
+    out = {}
+    m = repo.modules.get(modname)
+    if m is None:
+        return out
+    for name, fi in m.functions.items():
+        a = fi.node.args
+        if len(a.posonlyargs + a.args) != 1:
+            continue
+        q = (a.posonlyargs + a.args)[0].arg
+        loops = [n for n in ast.walk(fi.node) if isinstance(n, ast.For)]
+        if len(loops) != 1:
+            continue
+        pol = None
+        for iff in ast.walk(loops[0]):
+            if not isinstance(iff, ast.If):
+                continue
+            cmps = [c for c in ast.walk(iff.test) if isinstance(c, ast.Compare) and len(c.ops) == 1 and isinstance(c.ops[0], (ast.Gt, ast.Lt)) and
+                    isinstance(c.comparators[0], ast.Constant) and c.comparators[0].value == 0]
+            zero_prefix = any(isinstance(c, ast.Call) and src(c.func).split(".")[-1] in ("allclose", "isclose", "all", "any", "count_nonzero")
+                              for c in ast.walk(iff.test))
+            rets = [r for r in ast.walk(iff) if isinstance(r, ast.Return) and isinstance(r.value, ast.Constant) and r.value.value is True]
+            if len(cmps) == 1 and zero_prefix and rets:
+                pol = 1 if isinstance(cmps[0].ops[0], ast.Gt) else -1
+        last = fi.node.body[-1]
+        if pol is not None and isinstance(last, ast.Return) and isinstance(last.value, ast.Constant) and last.value.value is False:
+            out[name] = pol
+    return out
+
+
+def normaliser_functions(repo, modname="molgri.space.utils"):
+    """names of the utility functions that scale vectors to a given length (x / |x| * length) — recognised by structure"""
+    out = set()
+    m = repo.modules.get(modname)
+    if m is None:
+        return out
+    for name, fi in m.functions.items():
+        a = fi.node.args
+        ps = [x.arg for x in a.posonlyargs + a.args]
+        if not ps:
+            continue
+        defs = Canon.single_defs(fi.node.body)
+        for r in ast.walk(fi.node):
+            if not (isinstance(r, ast.Return) and r.value is not None):
+                continue
+            for d in ast.walk(r.value):
+                num = den = None
+                if isinstance(d, ast.BinOp) and isinstance(d.op, ast.Div):
+                    num, den = d.left, d.right
+                elif isinstance(d, ast.Call) and src(d.func).split(".")[-1] in ("divide", "true_divide") and len(d.args) == 2:
+                    num, den = d.args
+                if num is None or not (isinstance(num, ast.Name) and num.id == ps[0]):
+                    continue
+                dtxt = Canon(defs).text(den)
+                if "norm" in dtxt and ps[0] in dtxt:
+                    out.add(name)
+    return out
